@@ -224,13 +224,15 @@ func ParseSliceHeader(nalu []byte, spsMap map[uint32]*SPS, ppsMap map[uint32]*PP
 				for i := uint(0); i < uint(sh.NumLongTermSps)+sh.NumLongTermPics; i++ {
 					var lt LongTermRPS
 					if i < uint(sh.NumLongTermSps) {
+						// lt_idx_sps is inferred to be 0 when there is only one candidate in the SPS
+						LtIdxSps := uint(0)
 						if sps.NumLongTermRefPics > 1 {
-							LtIdxSps := r.Read(bits.CeilLog2(uint(sps.NumLongTermRefPics)))
-							if int(LtIdxSps) >= len(sps.LongTermRefPicSets) {
-								return sh, fmt.Errorf("lt_idx_sps > num_long_term_ref_pics_sps")
-							}
-							lt = sps.LongTermRefPicSets[LtIdxSps]
+							LtIdxSps = r.Read(bits.CeilLog2(uint(sps.NumLongTermRefPics)))
 						}
+						if int(LtIdxSps) >= len(sps.LongTermRefPicSets) {
+							return sh, fmt.Errorf("lt_idx_sps > num_long_term_ref_pics_sps")
+						}
+						lt = sps.LongTermRefPicSets[LtIdxSps]
 					} else {
 						lt.PocLsbLt = uint16(r.Read(int(sps.Log2MaxPicOrderCntLsbMinus4 + 4)))
 						lt.UsedByCurrPicLtFlag = r.ReadFlag()
